@@ -1,4 +1,4 @@
-"""Shape-map runs for the extraction-pipeline properties (C01, C02, C04, C05, C12).
+"""Shape-map runs for the extraction-pipeline properties (C01, C02, C04, C05, C12, C14).
 
 A shape-map run is an ordinary run (ts, cfg) of vp.pipe whose configuration carries
 
